@@ -7,3 +7,4 @@ Definition k_flow_pack_asn1_generalized_time : pfun :=
     ] [];
     SReturn (PCall "_pack_asn1" [(PAttr (PName "tag") "tag_class"); (PAttr (PName "tag") "is_constructed"); (PAttr (PName "tag") "tag_number"); (PMeth "encode" (PName "value") [(PStr [117; 116; 102; 45; 56])])])
   ] |}.
+Definition k_flow_pack_asn1_generalized_time_defaults : list (string * pexp) := [("tag", PNone)].
